@@ -1240,6 +1240,13 @@ class MiniInterp:
                 return r
         if t in SAFE_METHODS and attr in SAFE_METHODS[t]:
             return T("native", obj, attr)
+        if isinstance(obj, (list, tuple, dict, str)) and attr in ("__getitem__", "__contains__", "__len__"):
+            if attr == "__getitem__":
+                return PyFn("__getitem__", lambda a, k, obj=obj: self.ev(
+                    ast.Subscript(value=ast.Name(id="__o", ctx=ast.Load()), slice=ast.Name(id="__k", ctx=ast.Load()), ctx=ast.Load()), {"__o": obj, "__k": a[0]}, fi))
+            if attr == "__contains__":
+                return PyFn("__contains__", lambda a, k, obj=obj: self.contains(obj, a[0]))
+            return PyFn("__len__", lambda a, k, obj=obj: len(obj))
         if (obj is None or t in (int, float, bool, str, bytes, list, dict, tuple, set)) and not hasattr(t, attr):
             raise PyRaise("AttributeError", node)        # e.g. None.items(), "text".keys(): the program's error, not the model's
         raise Unknown(f"attribute {attr} of {t.__name__}")
@@ -1380,7 +1387,7 @@ class MiniInterp:
             base = f[1].replace(":", ".").split(".")[-1]
             if base in ("bisect", "bisect_left", "bisect_right", "insort", "insort_left", "insort_right") and f[1].replace(":", ".").split(".")[0] == "bisect":
                 seq, x = args[0], args[1]
-                if not isinstance(seq, list):
+                if not isinstance(seq, (list, tuple)) or (base.startswith("insort") and not isinstance(seq, list)):
                     raise Unknown("bisect on a non-list")
                 keyf = kwargs.get("key")
                 lo = kwargs.get("lo", args[2] if len(args) > 2 else 0)
@@ -1565,8 +1572,32 @@ class MiniInterp:
                 n = max((len(x) for x in xs), default=0)
                 fill = kwargs.get("fillvalue")
                 return _Iter([tuple(x[i] if i < len(x) else fill for x in xs) for i in range(n)])
-            if base == "groupby":
-                raise Unknown("itertools.groupby")
+            if base == "groupby" and args:
+                keyf = args[1] if len(args) > 1 else kwargs.get("key")
+                groups = []
+                for x in self.iterate(args[0]):
+                    k = self.apply(keyf, [x]) if keyf is not None else x
+                    if groups and self.equal(groups[-1][0], k):
+                        groups[-1][1].append(x)
+                    else:
+                        groups.append((k, [x]))
+                return _Iter([(k, _Iter(g)) for k, g in groups])
+            if base == "compress" and len(args) == 2:
+                return _Iter([x for x, sel in zip(self.iterate(args[0]), self.iterate(args[1])) if self.truth(sel)])
+            if base == "filterfalse" and len(args) == 2:
+                return _Iter([x for x in self.iterate(args[1]) if not self.truth(x if args[0] is None else self.apply(args[0], [x]))])
+            if base == "count":
+                raise Unknown("itertools.count (unbounded)")
+            if base == "product":
+                import itertools as _it
+                cols = [self.iterate(a) for a in args] * int(kwargs.get("repeat", 1))
+                return _Iter([tuple(c) for c in _it.product(*cols)])
+            if base in ("permutations", "combinations") and args:
+                import itertools as _it
+                return _Iter([tuple(c) for c in getattr(_it, base)(self.iterate(args[0]), *args[1:])])
+            if base == "tee" and args:
+                xs = self.iterate(args[0])
+                return tuple(_Iter(list(xs)) for _ in range(args[1] if len(args) > 1 else 2))
             if base == "pairwise" and len(args) == 1:
                 xs = self.iterate(args[0])
                 return _Iter(list(zip(xs, xs[1:])))
